@@ -1,11 +1,13 @@
 #!/usr/bin/env python3
 """Derive the per-opcode attribute table of specs/X86OpTab.tla from the reference disassemblers.
 
-    /venv/bin/python corpus/x86len/build_optab.py [--jobs N]
+    /venv/bin/python corpus/x86len/build_optab.py [--jobs N] [--reuse]
+
+(--reuse: refold from the vendored raw measurements corpus/x86len/optab_raw.json.gz, probing only what is missing)
 
 amoco is never imported or consulted. For every
     mode in {32, 64} x opcode map in {one-byte, 0F, 0F38, 0F3A} x opcode byte x mandatory-prefix column in
-    {none, 66, F2, F3} x REX.W in {0, 1} (64-bit mode)
+    {none, 66, F2, F3, 66+F2, 66+F3} x REX.W in {0, 1} (64-bit mode) (x 67 for the one-byte map)
 the script probes objdump and llvm-objdump (harness/c07ref.py) with all 256 values of the byte that follows
 the opcode (the ModRM byte, if the opcode has one) in front of a fixed tail, and keeps, per probe, whether
 both tools accept the string as a valid instruction of the same length, that length, and whether they print
@@ -16,13 +18,14 @@ a direct branch target. From these measurements it infers, per opcode:
     that reproduces every measured column (operand size: REX.W -> 64, else 66 -> 16, else 32),
   * rel8 / relz when the tools print a branch target,
   * per ModRM class (memory form x /digit; register form x /digit, refined per rm where needed) which
-    columns are valid ("x" = rejected by a reference, the references disagree, or irregular = outside the
+    (column, REX.W) pairs are valid ("x" = rejected by a reference, the references disagree, or irregular = outside the
     domain claimed by the specification).
 The ModRM/SIB/displacement length rule used to subtract the addressing bytes is the textbook one; it is
 part of specs/X86Len.tla, and table + rule are validated together by TLC against the independent corpus
 (build_corpus.py, check stage T-ref) - a wrong inference here shows up there.
 
-Outputs: corpus/x86len/optab.json.gz (the raw folded measurements), specs/X86OpTab.tla (generated).
+Outputs: corpus/x86len/optab_raw.json.gz (raw measurements), corpus/x86len/optab.json.gz (the folded table),
+specs/X86OpTab.tla (generated from it).
 """
 import gzip
 import json
@@ -334,7 +337,7 @@ def main():
     jobs_n = 8
     if "--jobs" in sys.argv:
         jobs_n = int(sys.argv[sys.argv.index("--jobs") + 1])
-    raw_path = os.path.join(VERIF, ".work", "c07_optab_raw.json.gz")
+    raw_path = os.path.join(HERE, "optab_raw.json.gz")      # vendored raw measurements (per probe: ok, length, branch)
     t0 = time.time()
     raw = {}
     if "--reuse" in sys.argv and os.path.exists(raw_path):
